@@ -235,7 +235,80 @@ def rule_ctor_domain(run):
     run.end()
 
 
-RULES = [rule_rows, rule_siblings, rule_intarith, rule_ext, rule_widths, rule_literals, rule_castmatrix, rule_multi_index, rule_resize, rule_views, rule_tracer, rule_no_lookthrough, rule_ctor_domain]
+def rule_div_wrap(run):
+    run.begin(
+        "C09.divwrap",
+        "constant folding of signed truncdiv / rem / mod wraps like the emitted operator instead of rejecting the design: "
+        "for every pair of Signed operands up to 3 bits (thorough: 4) the folded result is the exact quotient / remainder "
+        "reduced modulo 2^(result width) - in particular min / -1, the one quotient that does not fit (abstract "
+        "evaluation of the Signed methods; the constructor model rejects out-of-range ints as C09.ctor shows the real one does)",
+        floor=100,
+    )
+    from ..absint import Interp, Reject
+
+    sm = run.idx.mod("cohdl/_core/_signed.py")
+    im = run.idx.mod("cohdl/_core/_integer.py")
+
+    class _Integer:
+        pass
+
+    class _SV:
+        def __init__(self, width, val):
+            self.width, self._width, self.val = width, width, val
+
+        def to_int(self):
+            return self.val
+
+    class _SignedCls:
+        def __getitem__(self, w):
+            def ctor(v=None):
+                if v is None:
+                    return _SV(w, None)
+                if not (-(2 ** (w - 1)) <= v < 2 ** (w - 1)):
+                    raise Reject(f"value {v} outside the range of Signed[{w}]")
+                return _SV(w, v)
+            return ctor
+
+    signed_cls = _SignedCls()
+
+    def isinst(v, t):
+        ts = t if isinstance(t, tuple) else (t,)
+        return any((x is signed_cls and isinstance(v, _SV)) or (x is int and isinstance(v, int) and not isinstance(v, bool)) or (x is _Integer and isinstance(v, _Integer)) for x in ts)
+
+    def trunc(a, b):
+        q = abs(a) // abs(b)
+        return q if (a < 0) == (b < 0) else -q
+
+    def wrap(v, w):
+        v &= (1 << w) - 1
+        return v - (1 << w) if v >> (w - 1) else v
+
+    ops = {"_cohdl_truncdiv_": (lambda a, b: trunc(a, b), "l"), "_cohdl_rtruncdiv_": (lambda a, b: trunc(a, b), "l"), "_cohdl_rem_": (lambda a, b: a - b * trunc(a, b), "r"), "__mod__": (lambda a, b: a % b, "r")}
+    hi = run.bound(4, 5)
+    for meth, (fn, rw) in ops.items():
+        f = sm.func(f"Signed.{meth}")
+        for wl in range(1, hi):
+            for wr in range(1, hi):
+                for a in range(-(2 ** (wl - 1)), 2 ** (wl - 1)):
+                    for b in range(-(2 ** (wr - 1)), 2 ** (wr - 1)):
+                        if b == 0:
+                            continue
+                        prims = {"isinstance": isinst, "Signed": signed_cls, "Integer": _Integer, "int": int, "_int_truncdiv": lambda x, y: Interp(im, {"abs": abs}).call_function("_int_truncdiv", x, y)}
+                        try:
+                            # reflected forms receive (self = right operand, left operand)
+                            args = (_SV(wr, b), _SV(wl, a)) if meth.startswith("_cohdl_r") and meth != "_cohdl_rem_" else (_SV(wl, a), _SV(wr, b))
+                            got = Interp(sm, prims).call_function(f"Signed.{meth}", *args)
+                            res = (got.width, got.val) if isinstance(got, _SV) else repr(got)
+                        except Reject as e:
+                            res = f"rejected: {e}"
+                        w = wl if rw == "l" else wr
+                        exp = (w, wrap(fn(a, b), w))
+                        run.ob(res == exp, f"Signed.{meth}", file=sm.rel, line=f.node.lineno, detail=f"Signed[{wl}]({a}),Signed[{wr}]({b})", expected=f"Signed[{exp[0]}]({exp[1]})", found=str(res)[:80],
+                               sample=(meth, wl, a, b) == ("_cohdl_truncdiv_", 3, -4, -1))
+    run.end()
+
+
+RULES = [rule_rows, rule_siblings, rule_intarith, rule_ext, rule_widths, rule_literals, rule_castmatrix, rule_multi_index, rule_resize, rule_views, rule_tracer, rule_no_lookthrough, rule_ctor_domain, rule_div_wrap]
 LEVEL = "other"
 EXPLANATION = (
     "Structural agreement between the compile-time (folding) path and the run-time path of primitive operators: "
